@@ -100,7 +100,7 @@ def stepG (g : GS) (w : World) : StepR :=
     -- go func() { defer Cleanup(); Init(); Set(key, cf); doer(cf) }  — harness: the doer tags its context
     match tlSet g.gid ctxKey g.ctx0 (tlInit g.gid w) with
     | none => { g := g, w := w }
-    | some w1 => { g := { g with started := true }, w := setVar g.ctx0 tagKey (1000 + g.gid) (note g.gid g.ctx0 w1) }
+    | some w1 => { g := { g with started := true }, w := setTag g.ctx0 (1000 + g.gid) (note g.gid g.ctx0 w1) }
   else if g.panicking then
     match g.k with
     | [] => { g := { g with panicking := false }, w := w }
@@ -127,8 +127,8 @@ def stepG (g : GS) (w : World) : StepR :=
       | .recover p => { g := { g with k := .run p c :: .catchK :: k }, w := w }
       | .doctx id p =>
         let fc := forkCtx c w
-        match dwcEnter g.gid fc.1 (setVar fc.1 tagKey id fc.2) with
-        | none => panicS g k (setVar fc.1 tagKey id fc.2)
+        match dwcEnter g.gid fc.1 (setTag fc.1 id fc.2) with
+        | none => panicS g k (setTag fc.1 id fc.2)
         | some (save, w2) => { g := { g with k := .run p fc.1 :: .restoreCtx save :: k }, w := w2 }
       | .dodo id p => doEnter g k id false p w
       | .dotry id p => doEnter g k id true p w
@@ -147,7 +147,7 @@ def stepG (g : GS) (w : World) : StepR :=
       | none => panicS g k fc.2
       | some (save, w2) =>
         { g := { g with k := .run p fc.1 :: .restoreCtx save :: ((if ctch then [Frame.catchK] else []) ++ k) }
-          w := setVar fc.1 tagKey id w2 }
+          w := setTag fc.1 id w2 }
     | .restoreCtx save :: k =>
       match dwcExit g.gid save w with
       | some w1 => { g := { g with k := k }, w := w1 }
